@@ -515,9 +515,11 @@ def part_from_matchfile(
         # if we have an incomplete first measure that isn't an anacrusis
         # measure, add a rest (dummy)
         # if starting beat is above zero, add padding
+        # (whole divisions: t comes from an onset rounded to 4 decimals)
+        padding = int(round(t * divs))
         rest = score.Rest()
-        part.add(rest, start=0, end=t * divs)
-        onset_in_divs += t * divs
+        part.add(rest, start=0, end=padding)
+        onset_in_divs += padding
         offset = 0
         t = t - t % beats_map(min_time)
 
